@@ -193,6 +193,53 @@ pub fn execute_guarded<W: World>(trace: &Trace, stats: &mut Stats) -> Result<Vec
     }
 }
 
+// ---------------------------------------------------------------------------------------------- early violations
+//
+// A violation is normally reported when its run ends. A run that goes on after a violation works on a state the
+// library already corrupted and may kill the process (debug assertion in a non-unwinding context, SIGSEGV); the
+// specific violation would then be lost behind the generic `abort:` class. Worlds therefore announce every
+// violation the moment it is recorded: in `run` mode it goes to the progress file, in `replay` mode to stdout.
+
+enum EarlySink {
+    None,
+    Progress(std::fs::File),
+    Stdout(String),
+}
+
+thread_local! {
+    static EARLY: std::cell::RefCell<(EarlySink, String)> = const { std::cell::RefCell::new((EarlySink::None, String::new())) };
+}
+
+fn one_line(s: &str) -> String {
+    s.chars().map(|c| if c == '\n' || c == '\r' || c == '\t' { ' ' } else { c }).take(400).collect()
+}
+
+/// Called by the worlds whenever they record a violation.
+pub fn early_violation(class: &str, op_index: usize, msg: &str) {
+    EARLY.with(|e| {
+        let mut e = e.borrow_mut();
+        let prop = e.1.clone();
+        let mine = prop == "ALL" || class.split('/').next() == Some(prop.as_str());
+        if !mine {
+            return;
+        }
+        match &mut e.0 {
+            EarlySink::None => {}
+            EarlySink::Progress(f) => {
+                let _ = writeln!(f, "EARLY {class}\t{}\t{}", op_index as i64, one_line(msg));
+                let _ = f.flush();
+            }
+            EarlySink::Stdout(file) => {
+                use std::io::Write as _;
+                let out = std::io::stdout();
+                let mut out = out.lock();
+                let _ = writeln!(out, "VIOLATION property={prop} class={class} replay={file} op={} msg={}", op_index as i64, one_line(msg));
+                let _ = out.flush();
+            }
+        }
+    });
+}
+
 pub fn main_for<W: World>() {
     install_panic_hook();
     let args: Vec<String> = std::env::args().collect();
@@ -215,6 +262,11 @@ pub fn main_for<W: World>() {
             let mut progress = arg(&args, "--progress").map(|p| {
                 std::fs::OpenOptions::new().create(true).append(true).open(p).unwrap_or_else(|_| die("cannot open progress file"))
             });
+            if let Some(p) = progress.as_ref() {
+                if let Ok(c) = p.try_clone() {
+                    EARLY.with(|e| *e.borrow_mut() = (EarlySink::Progress(c), prop.clone()));
+                }
+            }
             let mut stats = Stats::default();
             let mut viols: Vec<(u64, u64, Violation, String)> = Vec::new();
             let mut samples: Vec<String> = Vec::new();
@@ -313,8 +365,10 @@ pub fn main_for<W: World>() {
                 die(&format!("replay file is for world {}, this is {}", trace.world, W::NAME));
             }
             let mut stats = Stats::default();
+            EARLY.with(|e| *e.borrow_mut() = (EarlySink::Stdout(file.to_string()), if all { "ALL".to_string() } else { trace.prop.clone() }));
             match execute_guarded::<W>(&trace, &mut stats) {
                 Ok(vs) => {
+                    EARLY.with(|e| *e.borrow_mut() = (EarlySink::None, String::new()));
                     let mut any = false;
                     for v in &vs {
                         if all || v.prop() == trace.prop {
